@@ -44,13 +44,13 @@ CHECKS["C11"] = {
     "script": "c11.py", "category": "exploration", "engine": "enum",
     "technique": "bounded-exhaustive enumeration on the real path/cache-URL/rendezvous code against independent references (AMP cache URL spec steps, base64url reader), recording RoundTripper and on-the-wire observation",
     "text": "DecodePath over all data strings <=3 over 6 boundary bytes x all paddings <=3 tokens; EncodePath with pinned randomness; malformed paths; CacheURL over a host-label grammar (IDN, hyphens at 3-4, 63/64-byte labels) x schemes x ports x userinfo x paths x queries x cache URLs x content types against a reference of the AMP spec + published vectors; fronting (URL.Host = front, Host header = origin) at the RoundTripper and on the wire; status x body-size matrix around the 100 kB limit for HTTP and AMP.",
-    "design_ref": "§3 C11", "note": ENUM_NOTE + " The endpoint-equivalence clause (AMP endpoint == POST endpoint) is decided by the broker SCHED harness (c02 explores the amp entry point with the same oracle); x/net/idna is the trusted punycode primitive; slash normalisation by CacheURL is accepted (see DESIGN.md).",
+    "design_ref": "§3 C11", "note": ENUM_NOTE + " The endpoint-equivalence clause (AMP endpoint == POST endpoint) is decided by the broker SCHED harness (c02 explores the amp entry point with the same oracle) and, over poll sizes up to the 100 000 byte limit, by a sequential enumeration through both handlers; redirect answers (3xx + Location, then 200) are enumerated for all rendezvous variants; x/net/idna is the trusted punycode primitive; slash normalisation by CacheURL is accepted (see DESIGN.md).",
 }
 CHECKS["C12"] = {
     "script": "c12.py", "category": "exploration", "engine": "enum",
     "technique": "bounded-exhaustive enumeration of field alphabets, JSON shape lattices, truncations, byte mutations and token strings on the real codecs against a reference written from the protocol comments",
     "text": "All six messages: full products of field alphabets (round trip with documented defaults), JSON shape lattice per decoder, every truncation, every single-byte replacement/deletion/swap/insertion of valid documents, token strings <=5; flags panics, must-reject-but-accepted, round-trip/default mismatches.",
-    "design_ref": "§3 C12", "note": ENUM_NOTE,
+    "design_ref": "§3 C12", "note": ENUM_NOTE + " Encoders are also checked for handing out memory they reuse (several encoded messages outstanding).",
 }
 CHECKS["C17"] = {
     "script": "c17.py", "category": "model_checking",
@@ -62,7 +62,7 @@ CHECKS["C01"] = {
     "script": "c01.py", "category": "model_checking",
     "technique": "stateless model checking (DPOR + sleep sets, virtual time) of the real client dialContext closure + WebRTCPeer + encapsulationPacketConn + RedialPacketConn against the real server turbotunnelMode + QueuePacketConn, with scripted carrier faults and an ARQ stand-in for KCP",
     "text": U + " of the composition for: no fault; every single fault {carrier cut before / inside / after a write, freeze} x direction x write index (token, ClientID, length prefix+payload writes) x {enough standby carriers, one too few} x replacement delay {0, 10 s}; pairs of faults in the thorough tier. Oracle: every packet handed up on either side is byte-identical to one the peer sent in this session and attributed to its ClientID; the application byte streams are exact prefixes (never missing, duplicated, reordered or foreign data); both directions complete whenever a working carrier exists after the last fault; the redialling conn never surfaces an error; nothing of the transport is left running after shutdown.",
-    "design_ref": "§3 C01", "note": SCHED_NOTE + " Tier 1: KCP+smux are replaced by a stop-and-wait ARQ driver, the proxy by a transparent relay; pion, real proxy processes and KCP/smux internals are not covered. The dialContext closure is the real one (captured from newSession by a build-time hook); WebRTCPeer's transport/pipe fields are retyped to interfaces by a build-time pre-pass.",
+    "design_ref": "§3 C01", "note": SCHED_NOTE + " Tier 1: KCP+smux are replaced by a stop-and-wait ARQ driver, the proxy by a transparent relay. Tier 2 (real time, loopback): the real client newSession (kcp-go, smux) over real WebRTCPeer objects with an in-memory data channel <-> relay <-> real server listener, ~95 fault scenarios at relay messages incl. bulk transfers with a late replacement and the bridge closing after its last write; pion itself and real proxy processes are not covered. The dialContext closure is the real one (captured from newSession by a build-time hook); WebRTCPeer's transport/pipe fields are retyped to interfaces by a build-time pre-pass.",
 }
 CHECKS["C05"] = {
     "script": "c05.py", "category": "model_checking",
@@ -80,7 +80,7 @@ CHECKS["C16"] = {
     "script": "c16.py", "category": "model_checking",
     "technique": "stateless model checking (DPOR + sleep sets, virtual time) of the real tokens_t/runSession/datachannelHandler with a scripted broker and two build-time seams for the pion-facing functions, explicit enumeration of session-outcome sequences",
     "text": U + " for capacity in {1,2,3} x all sequences of <=3 (4) session outcomes over 10 exit paths incl. the data channel opening in the instant of the 20 s timeout, sessions overlapping; oracle: slots in use <= capacity, every reported Clients value a multiple of 8 and <= slots in use, after the sequence count()==0 with an empty token channel, nobody blocked in a token operation, the proxy keeps polling.",
-    "design_ref": "§3 C16", "note": SCHED_NOTE + " Seams: makePeerConnectionFromOffer (real unconnected PeerConnection + scripted OnDataChannel contract) and copyLoop; Start()'s polling loop is copied verbatim; not yet bound to real pion by a tier-2 run.",
+    "design_ref": "§3 C16", "note": SCHED_NOTE + " Seams: makePeerConnectionFromOffer (real unconnected PeerConnection + scripted OnDataChannel contract) and copyLoop; Start()'s polling loop is copied verbatim. Harness c16-load: capacity 16 with clients leaving while the proxy polls. Tier 2 (real time): the real SnowflakeProxy.Start with real pion clients in the same process (echo, close at open, never answers, stalls during a download, unreachable relay, undecodable offer; capacities 1-3); it marks itself incomplete where in-process WebRTC cannot connect.",
 }
 CHECKS["C07"] = {
     "script": "c07.py", "category": "exploration", "engine": "enum",
@@ -110,7 +110,7 @@ CHECKS["C19"] = {
     "script": "c19.py", "category": "model_checking",
     "technique": "exhaustive interleaving exploration of the rounded counter's atomic operations with a brute-force linearizability check; driven-traffic enumeration through the real IPC calls under virtual time; exhaustive binning check; journal enumeration with an injected clock",
     "text": "roundedCounter: base in {0,7,8} x 2-3 threads x 1-2 Inc + a reader, every interleaving with <=3 (4) preemptions, no reduction, history linearizable w.r.t. 'n++; read=ceil8(n)' and final value = ceil8(total); metrics log lines and rounded prometheus counters after n in {0,1,7,8,9,16,17} events of 7 kinds; binCount(n) for all n <= 2^20; unique-address figures for all poll sequences <=2 (3) over 3 addresses x 5 types x 2 NATs; journal: chunkings of sets of size 0..64 into <=3 overlapping chunks x all windows on chunk edges +-1 ns (exact), 10^3 and 10^5 addresses (within 2 %), no address text in the file.",
-    "design_ref": "§3 C19", "note": SCHED_NOTE + " Linearizability is checked by brute force over the recorded call/return history instead of porcupine (histories have <= 8 operations).",
+    "design_ref": "§3 C19", "note": SCHED_NOTE + " Linearizability is checked by brute force over the recorded call/return history instead of porcupine (histories have <= 8 operations). Journal: also with a flush failing once; every chunk must cover the moments at which its addresses were recorded.",
 }
 CHECKS["C20"] = {
     "script": "c20.py", "category": "model_checking",
@@ -128,13 +128,13 @@ CHECKS["C13"] = {
     "script": "c13.py", "category": "exploration", "engine": "enum",
     "technique": "bounded-exhaustive enumeration of a JSON value lattice through the real deserialiser and its real callers (client Negotiate, proxy pollOffer, remoteIPFromSDP)",
     "text": "Members type/sdp each over 24 JSON values x each other, top-level shapes, duplicate keys, truncations: value or error, never panic - directly and through BrokerChannel.Negotiate (scripted rendezvous) and SignalingServer.pollOffer (scripted transport); round trip for 4 types x 10 SDP texts; remoteIPFromSDP over candidate grammars, a c= token grammar (7 heads x 15 tails, media/session level, CRLF/LF), truncations and hostile strings.",
-    "design_ref": "§3 C13", "note": ENUM_NOTE + " Callers are driven in-process, not as separate binaries.",
+    "design_ref": "§3 C13", "note": ENUM_NOTE + " Callers are driven in-process, not as separate binaries; probetest's /probe handler is driven with posted poll responses.",
 }
 CHECKS["C18"] = {
     "script": "c18.py", "category": "model_checking", "engine": "enum",
     "technique": "explicit-state search to a fixpoint over Set sequences on the real ring map + enumeration of a client_ip grammar against a net/netip reference",
     "text": "Ring map: capacities 0..3 x 4 ClientIDs x 2 addresses, all reachable canonical states (fixpoint), Get of every id compared with the reference 'latest of the last cap Sets' in every state; sanitiser: ~200 client_ip spellings (zones, ports, brackets, leading zeros, mapped/unspecified, garbage, very long) against netip; remoteIPFromSDP against a reference.",
-    "design_ref": "§3 C18", "note": ENUM_NOTE + " Attribution of interleaved carriers to sessions is covered by the C05 harness.",
+    "design_ref": "§3 C18", "note": ENUM_NOTE + " Concurrent Set/Get on a ring of capacity 1-2 under the scheduler (DPOR); attribution on the real stack: the sessions section of the C05 tier-2 harness (address at accept time and asked again later, carriers from different or no addresses).",
 }
 
 PENDING = {}
